@@ -62,7 +62,7 @@ func qtBase(name string) string {
 }
 
 func checkC23(c *Check) {
-	c.Explanation = "Implicit-tag rule, decided on internal/tlast: (1) Combinator.crc32() is hash/crc32.ChecksumIEEE over canonicalForm(); (2) Construct.ID is assigned from crc32() only under !IDExplicit, and an explicit tag is parsed base 16 and stored verbatim with IDExplicit=true; (3) non-interference: no function reachable from canonicalForm reads a layout/comment field (CommentBefore, CommentRight, NewlineRight, position ranges) or Arithmetic.Nums, and the canonical printer family never calls the ordinary printer family (TypeRef.String, ArithmeticOrType.String, Arithmetic.String, Field.String, RepeatWithScale.String, ScaleFactor.String), which prints arithmetic as written and uses parentheses."
+	c.Explanation = "Implicit-tag rule, decided on internal/tlast: (1) Combinator.crc32() is hash/crc32.ChecksumIEEE over canonicalForm(); (2) Construct.ID is assigned from crc32() only under !IDExplicit, and an explicit tag is parsed base 16 and stored verbatim with IDExplicit=true; (3) the canonical type reference keeps the bare marker `%` exactly when the reference is bare and the type's own name (not the namespace) does not start in lower case; (4) non-interference: no function reachable from canonicalForm reads a layout/comment field (CommentBefore, CommentRight, NewlineRight, position ranges) or Arithmetic.Nums, and the canonical printer family never calls the ordinary printer family (TypeRef.String, ArithmeticOrType.String, Arithmetic.String, Field.String, RepeatWithScale.String, ScaleFactor.String), which prints arithmetic as written and uses parentheses."
 	c.NotCovered = "the CRC value itself; that the canonical text equals the documented one-line form token by token"
 	c.Trusted = []string{"go/types", "hash/crc32"}
 	r := loadRepoFuncs(c, "./internal/tlast")
@@ -187,6 +187,19 @@ func checkC23(c *Check) {
 		}
 	}
 	sort.Strings(names)
+	// (4) decision table of the canonical type reference: the bare marker and the name
+	if ir := r.ir("internal/tlast.TypeRef.streamtoCrc32"); ir != nil {
+		ok, nameOK := false, false
+		if len(ir.Body) >= 2 {
+			if in, isIf := ir.Body[0].(*IfN); isIf && len(in.Else) == 0 {
+				ok = in.Cond.String() == "and(item.Bare,or(!nz(len(item.Type.Name)),!unicode.IsLower(item.Type.Name[#0])))" && strings.Contains(blockText(in.Then), `("%")`)
+			}
+			if cn, isCall := ir.Body[1].(*CallN); isCall && cn.Fn != nil && cn.Fn.Name() == "StreamString" && cn.Recv == "item.Type" {
+				nameOK = true
+			}
+		}
+		c.Ob("tag/canonical-bare-marker-rule", "tlast.TypeRef.toCrc32", ok && nameOK, r.pos(ir.Info.Decl.Pos()), fmt.Sprintf("`%%` is kept iff the reference is bare and the type's own name (Type.Name, without the namespace) does not start with a lower-case letter: %v; then the full name is printed by Name.String of Type: %v", ok, nameOK))
+	}
 	c.Ob("tag/non-interference/analysed", "functions reachable from canonicalForm", nFuncs >= 8, "", fmt.Sprintf("%d functions: %s", nFuncs, strings.Join(uniq(names), ", ")))
 	c.Floor("tag/implicit-only-when-not-explicit", 1)
 	c.Floor("tag/explicit-verbatim", 1)
